@@ -96,6 +96,15 @@ def query_job(e, p):
         expect('passive_var_impact(%d)' % v, z3.Sum([z3.If(depends(tabs[s], v, n), 1, 0) for s in range(n)]) != pi, pi)
         ai = e.call('obdd::Bdd::active_var_impact', [rb, T(v), sl])
         expect('active_var_impact(%d)' % v, z3.Sum([z3.If(depends(tabs[v], w, n), 1, 0) for w in range(n)]) != ai, ai)
+    # the same two measures on a list that is shorter than the variable universe (the list, not the store, defines the positions counted)
+    if n >= 2:
+        sl2 = SliceRef(acs.items, 0, n - 1)
+        for v in range(n - 1):
+            ai = e.call('obdd::Bdd::active_var_impact', [rb, T(v), sl2])
+            expect('active_var_impact(%d, first %d conditions)' % (v, n - 1), z3.Sum([z3.If(depends(tabs[v], w, n), 1, 0) for w in range(n - 1)]) != ai, ai)
+        for v in range(n):
+            pi = e.call('obdd::Bdd::passive_var_impact', [rb, T(v), sl2])
+            expect('passive_var_impact(%d, first %d conditions)' % (v, n - 1), z3.Sum([z3.If(depends(tabs[s], v, n), 1, 0) for s in range(n - 1)]) != pi, pi)
     # --- path cubes
     if not is_sym(h) and h > 1:        # a symbolic handle is a leaf term: constant diagram
         empty = SliceRef([], 0, 0)
@@ -184,6 +193,10 @@ def judge_queries(out, case):
     for v in range(n):
         if out['passive'][v] != sum(1 for s in range(n) if v in py_support(tabs[s], n)): probs.append('passive_var_impact(%d) = %d' % (v, out['passive'][v]))
         if out['active'][v] != len(py_support(tabs[v], n)): probs.append('active_var_impact(%d) = %d' % (v, out['active'][v]))
+    for v in range(n - 1):
+        if 'active_partial' in out and out['active_partial'][v] != len([w for w in py_support(tabs[v], n) if w < n - 1]): probs.append('active_var_impact(%d) on the first %d conditions = %d' % (v, n - 1, out['active_partial'][v]))
+    for v in range(n):
+        if 'passive_partial' in out and out['passive_partial'][v] != sum(1 for s in range(n - 1) if v in py_support(tabs[s], n)): probs.append('passive_var_impact(%d) on the first %d conditions = %d' % (v, n - 1, out['passive_partial'][v]))
     for ent in out.get('cubes', []):
         goal, gv, cubes = ent['goal'], ent['goal_var'], ent['cubes']
         def match(c, a): return all(not (a >> v) & 1 for v in c[0]) and all((a >> v) & 1 for v in c[1])
@@ -237,6 +250,9 @@ def run_concrete(eng, case):
     out['passive'] = [eng.call('obdd::Bdd::passive_var_impact', [rb, T(v), sl]) for v in range(n)]
     out['active'] = [eng.call('obdd::Bdd::active_var_impact', [rb, T(v), sl]) for v in range(n)]
     out['facet_models'] = list(mc(eng.call('adf::Adf::facet_count', [ra, sl]).items[fi].f[0]))
+    sl2 = SliceRef(acs.items, 0, n - 1)
+    out['active_partial'] = [eng.call('obdd::Bdd::active_var_impact', [rb, T(v), sl2]) for v in range(n - 1)]
+    out['passive_partial'] = [eng.call('obdd::Bdd::passive_var_impact', [rb, T(v), sl2]) for v in range(n)]
     cubes = []
     if tv(f) > 1:
         empty = SliceRef([], 0, 0)
